@@ -23,7 +23,7 @@ ASSUMPTIONS = [
     "differing data with the same CRC-16 as the server's value (collision) is excluded by rule and counted",
     "without CRC the never-different-data clause is applied to loss and duplication (sequence numbers make them detectable)",
     "the reference server answers a client frame that is illegal in its state with an abort",
-    "size not indicated in the block upload response is outside the statement's quantification and not generated",
+    "the server answers the block upload initiate with and without size indication (both conformant)",
 ]
 MUX = (0x2000, 0)
 
@@ -39,6 +39,9 @@ def cases(tier, seed):
         for crc in ("granted", "refused", "not-requested"):
             D = (2 if n <= 22 else 1) if tier == "quick" else (3 if n <= 15 else 2)
             out.append({"n": n, "crc": crc, "D": D, "seed": seed})
+            if crc != "not-requested" and (tier == "thorough" or n % 3 == 1):
+                # a conformant server need not indicate the size in its block upload response
+                out.append({"n": n, "crc": crc, "D": min(D, 1 if tier == "quick" else 2), "seed": seed, "nosize": True})
     big = [888, 889, 890] if tier == "quick" else [888, 889, 890, 1777, 1778, 1779, 10000]
     for n in big:
         for crc in ("granted", "refused"):
@@ -51,7 +54,7 @@ def one(case, ch):
     import canopen
     n = case["n"]
     data = simenv.pattern(n, case.get("seed", 0))
-    srv = StrictSdoServer(5, crc=case["crc"] != "refused")
+    srv = StrictSdoServer(5, crc=case["crc"] != "refused", blk_size_indicated=not case.get("nosize"))
     srv.store[MUX] = data
     srv.expected_mux = struct.pack("<HB", *MUX)
     st = {"i": 0, "faults": []}
@@ -108,7 +111,7 @@ def run_case(case, st):
         kinds = "+".join(sorted({f[1] for f in faults})) or "none"
         if faults or r["nseg"] >= 2:
             st.nontrivial_n += 1
-        tag = case["crc"]
+        tag = case["crc"] + (":nosize" if case.get("nosize") else "")
         if r["err"] is None:
             same = r["got"] == r["data"]
             st.outcome(f"{kinds} -> returns {'exact' if same else 'DIFFERENT'} ({tag})")
